@@ -105,8 +105,9 @@ func randValue(rng *rand.Rand, maxMsg int) []byte {
 			return randBytes(rng, maxMsg/2, nil) // hexa doubles it to exactly the limit (for even limits)
 		case 4:
 			return randBytes(rng, maxMsg/2+1, nil)
-		case 5: // compression bomb: a few bytes on the wire, up to 1000:1 when inflated
-			return bytesRepeat(byte('a'+rng.IntN(3)), maxMsg*(2+rng.IntN(60)))
+		case 5: // compression bomb: a few bytes on the wire, far more when inflated (kept below ~4 kB so the
+			// list-based model stays fast; ratios up to 120:1 occur with the small limits)
+			return bytesRepeat(byte('a'+rng.IntN(3)), min(maxMsg*(2+rng.IntN(60)), 2*maxMsg+2000))
 		default:
 			return randBytes(rng, rng.IntN(6), nil)
 		}
